@@ -165,6 +165,7 @@ def median_filter(f, Bc=None, mode='reflect', cval=0.0, out=None, output=None):
     if f.ndim != Bc.ndim:
         raise ValueError('mahotas.median_filter: `f` and `Bc` must have the same number of dimensions')
     rank = Bc.sum()//2
+    _check_rank(Bc, rank, 'median_filter')
     output = _get_output(f, out, 'median_filter', output=output)
     _check_mode(mode, cval, 'median_filter')
     return _convolve.rank_filter(f, Bc, output, int(rank), mode2int[mode])
@@ -204,6 +205,12 @@ def mean_filter(f, Bc, mode='ignore', cval=0.0, out=None):
     return _convolve.mean_filter(f, Bc, out, mode2int[mode], cval)
 
 
+def _check_rank(Bc, rank, fname):
+    # the native code returns without writing the output for a rank outside the neighbourhood
+    n = np.count_nonzero(Bc)
+    if not (0 <= rank < n):
+        raise ValueError('mahotas.%s: rank (%s) must be in [0, %s), the number of elements in the neighbourhood' % (fname, rank, n))
+
 def rank_filter(f, Bc, rank, mode='reflect', cval=0.0, out=None, output=None):
     '''
     ranked = rank_filter(f, Bc, rank, mode='reflect', cval=0.0, out=None)
@@ -236,6 +243,7 @@ def rank_filter(f, Bc, rank, mode='reflect', cval=0.0, out=None, output=None):
     median_filter : A special case of rank_filter
     '''
     Bc = morph.get_structuring_elem(f, Bc)
+    _check_rank(Bc, rank, 'rank_filter')
     output = _get_output(f, out, 'rank_filter', output=output)
     _check_mode(mode, cval, 'rank_filter')
     return _convolve.rank_filter(f, Bc, output, rank, mode2int[mode])
